@@ -86,6 +86,17 @@ func (c *ctx) unrelatedFrame(ack xsens.MessageIdentifier) []byte {
 		if mid == ack {
 			continue
 		}
+		// not the acknowledge of ANY command either: a later command in the same case would take this frame for its own
+		// acknowledge, with a payload its result decoder was not meant for (the client model does not decode results)
+		isAck := false
+		for _, t := range cmdTable {
+			if mid == t.ack && mid != xsens.MessageIdentifierMTData2 {
+				isAck = true
+			}
+		}
+		if isAck {
+			continue
+		}
 		if mid == xsens.MessageIdentifierMTData2 {
 			return []byte(xsens.NewMessage(mid, c.measurementPayload(3, true)))
 		}
